@@ -90,7 +90,7 @@ PROPS["C03"] = dict(
           "exhaustively enumerated bounded family of chains (stated bound), which is what decides the property's interpreter-dependent part.",
     note=EI_NOTE + "; CPython object-model axioms assumed for the composition; exact DFS-flattening lemma (C03.flatten) not machine-checked")
 PROPS["C17"] = dict(
-    level="other", contracts=["contracts.c17"],
+    level="other", contracts=["contracts.c17"], static=["contracts.c17_static"],
     legs=[dict(name="c17_history", cmd="PYTHONPATH={repo} " + PY312 + " legs/c17_history.py")], technique=TECH + "; bounded history leg",
     explanation="Deductive part (all inputs, unbounded): the scan loop of add_glue_as_needed is cut by an invariant with a per-iteration step "
                 "clause — the built-in entry is popped from the pending table before any call, the module's function is popped from the "
@@ -140,14 +140,16 @@ def corpus(mode, py, tag, thorough_only=False):
 
 BOUNDED_TECH = ("bounded contract check (stand-in): sidecar postcondition evaluated natively on an exhaustively enumerated program family with a "
                 "stated bound; the CPython compiler is not formalised, so no deductive obligation can decide this property")
-BOUNDED_NOTE = ("NOT a proof: bound = G1 programs of nesting depth <= 2 (quick, exhaustive: 16 374 programs x all branch vectors x all "
-                "suspension / probe points) on CPython 3.12.1 and 3.11.7; thorough adds 3.10.13, 3.9.18 and a strided sample of depth 3; the "
-                "ground truth is a shadow log kept by the generated managers; `match` statements and >2 items per with are not generated")
+BOUNDED_NOTE = ("NOT a proof: bound = G1 programs of nesting depth <= 2 plus the depth-3 slice with > control statement > with > leaf, with "
+                "statements in finally / except clauses, and wide-constant layouts (EXTENDED_ARG) (quick, exhaustive: about 38 800 programs x all "
+                "branch vectors x all suspension / probe points) on CPython 3.12.1, 3.11.7 and 3.10.13; thorough adds 3.9.18 and a strided "
+                "sample of full depth 3; the ground truth is a shadow log kept by the generated managers; `match` statements and >2 items per "
+                "with are not generated")
 PROPS["C01"] = dict(
     level="exploration", contracts=["contracts.inspect311", "contracts.c01_lemmas", "contracts.lowlevel"],
     unit_filter=lambda u: not u.name.startswith("C20."),
     legs=[g1("suspended", PY312, "py312"), g1("suspended", PY311, "py311"), corpus("exits", PY312, "py312"),
-          corpus("exits", PY311, "py311", True), g1("suspended", PY310, "py310", thorough_only=True, vendor=True),
+          corpus("exits", PY311, "py311", True), g1("suspended", PY310, "py310", vendor=True),
           g1("suspended", PY39, "py39", thorough_only=True, vendor=True), g1("suspended", PY312, "py312", 3, True, stride=40)],
     technique=BOUNDED_TECH + "; sub-lemmas (varint / exception-table decoding, handler-chain walk, the join of block stack and "
               "with-statement table in _contexts_active_by_trickery) discharged deductively",
@@ -158,7 +160,7 @@ PROPS["C01"] = dict(
     note=BOUNDED_NOTE)
 PROPS["C02"] = dict(
     level="exploration", contracts=["contracts.inspect311"], legs=[g1("running", PY312, "py312"), g1("running", PY311, "py311"),
-                                             g1("running", PY310, "py310", thorough_only=True, vendor=True),
+                                             g1("running", PY310, "py310", vendor=True),
                                              g1("running", PY39, "py39", thorough_only=True, vendor=True),
                                              g1("running", PY312, "py312", 3, True, stride=40)],
     technique=BOUNDED_TECH,
@@ -173,7 +175,7 @@ PROPS["C08"] = dict(
                                              dict(name="c08_targets_py311", cmd="PYTHONPATH={repo} " + PY311 + " legs/c08_targets.py"),
                                              dict(name="c08_targets_py310", cmd="PYTHONPATH={repo}:{verif}/.vendor " + PY310 + " legs/c08_targets.py", thorough_only=True),
                                              dict(name="c08_targets_py39", cmd="PYTHONPATH={repo}:{verif}/.vendor " + PY39 + " legs/c08_targets.py", thorough_only=True),
-                                             corpus("meta", PY311, "py311", True), g1("meta", PY310, "py310", thorough_only=True, vendor=True),
+                                             corpus("meta", PY311, "py311", True), g1("meta", PY310, "py310", vendor=True),
                                              g1("meta", PY39, "py39", thorough_only=True, vendor=True)],
     technique=BOUNDED_TECH + "; the varname rule of the join (static `as` name, else a local whose value IS the manager) discharged deductively",
     claim="Bounded stand-in: start_line equals the line of the with keyword and varname equals the `as` target (None without one) for every "
@@ -182,7 +184,7 @@ PROPS["C08"] = dict(
     note=BOUNDED_NOTE + "; the generated family uses simple name targets, the richer target forms come from the standard-library corpus")
 PROPS["C20"] = dict(
     level="exploration", contracts=["contracts.lowlevel"], unit_filter=lambda u: u.name.startswith("C20."),
-    legs=[g1("referents", PY312, "py312"), g1("referents", PY311, "py311"), g1("referents", PY310, "py310", thorough_only=True, vendor=True),
+    legs=[g1("referents", PY312, "py312"), g1("referents", PY311, "py311"), g1("referents", PY310, "py310", vendor=True),
           g1("referents", PY39, "py39", thorough_only=True, vendor=True)],
     technique=BOUNDED_TECH + "; containment and mode-switch obligations discharged deductively",
     claim="Bounded stand-in for the over-approximation clause (fallback mode: every truly active manager present in order with right obj / "
